@@ -304,6 +304,13 @@ func (e *Engine) vrtCall(name string, f *ssa.Function, args []Val) (Val, bool) {
 	case "SetStdin":
 		e.stdin = &stdinModel{data: bytesOf(args[0])}
 		return nil, true
+	case "TempFile":
+		if e.files == nil {
+			e.files = map[string][]Sc{}
+		}
+		name := fmt.Sprintf("/vrt/file%d", len(e.files))
+		e.files[name] = bytesOf(args[0])
+		return Str(name), true
 	case "StdinChunks":
 		if e.stdin != nil {
 			e.stdin.chunked = true
@@ -530,7 +537,7 @@ func init() {
 			if n < 0 {
 				panic(&goPanic{msg: "strings: negative Repeat count"})
 			}
-			if n > 1<<16 {
+			if n > 1<<20 {
 				e.unsupported("huge strings.Repeat")
 			}
 			var out Val = Str("")
@@ -650,6 +657,37 @@ func init() {
 			return &z
 		},
 		"github.com/paulsonkoly/calc/types/node.Graphviz": func(e *Engine, f *ssa.Function, a []Val) Val { return nil },
+		// files created by vrt.TempFile: os.Open, (*os.File).Read in solver-independent full reads, Close
+		"os.Open": func(e *Engine, f *ssa.Function, a []Val) Val {
+			name, ok := a[0].(Str)
+			data, found := e.files[string(name)]
+			if !ok || !found {
+				e.unsupported("os.Open of a file that was not created by vrt.TempFile")
+			}
+			var obj Val = &fileModel{data: data}
+			return Tu{&obj, If{}}
+		},
+		"(*os.File).Read": func(e *Engine, f *ssa.Function, a []Val) Val {
+			fm := fileOf(e, a[0])
+			dst := a[1].(Sl).a
+			if fm.pos >= len(fm.data) {
+				if len(dst) == 0 {
+					return Tu{isc(0), If{}}
+				}
+				return Tu{isc(0), If{t: sentinelType, v: Str("io.EOF")}}
+			}
+			n := copySc(dst, fm.data[fm.pos:])
+			fm.pos += n
+			return Tu{isc(int64(n)), If{}}
+		},
+		"(*os.File).Close": func(e *Engine, f *ssa.Function, a []Val) Val {
+			if p, ok := a[0].(*Val); ok && p != nil {
+				if _, ok := (*p).(*fileModel); ok {
+					return If{}
+				}
+			}
+			return notHandled
+		},
 		// a bufio.Reader over os.Stdin is modelled (stream delivered in solver-chosen chunks); over
 		// any other reader the real bufio code is interpreted
 		"bufio.NewReader": func(e *Engine, f *ssa.Function, a []Val) Val {
@@ -677,6 +715,32 @@ func mathUnary(e *Engine, v Val, fn func(float64) float64) Val {
 		e.unsupported("math function on symbolic float")
 	}
 	return Sc{w: 64, c: math.Float64bits(fn(math.Float64frombits(s.c)))}
+}
+
+// ---------- file model ----------
+
+type fileModel struct {
+	data []Sc
+	pos  int
+}
+
+func fileOf(e *Engine, v Val) *fileModel {
+	if p, ok := v.(*Val); ok && p != nil {
+		if fm, ok := (*p).(*fileModel); ok {
+			return fm
+		}
+	}
+	e.unsupported("file operation on a file outside the model")
+	return nil
+}
+
+func copySc(dst []Val, src []Sc) int {
+	n := 0
+	for n < len(dst) && n < len(src) {
+		dst[n] = src[n]
+		n++
+	}
+	return n
 }
 
 // ---------- stdin model ----------
